@@ -1,9 +1,11 @@
 """C03 - point-charge and nuclear-attraction integrals exact."""
+import os
+
 import numpy as np
 from hypothesis import strategies as st
 
 from vf import gen
-from vf.core import Verdict, lib, maxdev, mk_basis
+from vf.core import Verdict, case_hash, lib, maxdev, mk_basis
 from vf.ref import r2, r3
 from vf.run import SubCheck
 
@@ -26,7 +28,7 @@ def charges(draw, cents):
     n = draw(st.integers(1, 4))
     pos, q, cls = [], [], []
     for _ in range(n):
-        mode = draw(st.integers(0, 4))
+        mode = draw(st.integers(0, 5))
         a = cents[0]
         b = cents[min(1, len(cents) - 1)]
         if mode == 0:
@@ -35,6 +37,11 @@ def charges(draw, cents):
             p, c = list(b), "on-centre"
         elif mode == 2:
             p, c = [(x + y) / 2 for x, y in zip(a, b)], "midpoint"
+        elif mode == 5:
+            p = list(a)
+            ax = draw(st.integers(0, 2))
+            p[ax] += draw(st.sampled_from([1e-10, 1e-8, 1e-6, 1e-5, 1e-4, -1e-6]))
+            c = "almost-on-centre"
         elif mode == 3:
             base = cents[draw(st.integers(0, len(cents) - 1))]
             p, c = [x + draw(st.floats(-1.5, 1.5, allow_nan=False)) for x in base], "near"
@@ -101,6 +108,21 @@ def judge(case):
             if d2 > TOL:
                 return v.fail(f"PointChargeIntegral.construct_array_contraction(s{i},s{j}) deviates by {d2:.3e} of "
                               f"sqrt(V_aa V_bb) at {at} (confirmed at 40 digits; float oracle said {d:.3e})")
+    # stage (ii) on a sample of PASSING elements: the float oracle itself is re-judged at 40 digits (an oracle that is
+    # wrong in the permissive direction would otherwise go unnoticed)
+    h = int(case_hash(case), 16)
+    if h % (4 if os.environ.get("VERIF_TIER") == "thorough" else 16) == 0:
+        want = r2.point_charge_block(R[0], R[1], C, q, normalised=False)
+        at = np.unravel_index(int(np.argmax(np.abs(want))), want.shape)
+        ma, ca, mb, cb, n = (int(x) for x in at)
+        exact = r2.point_charge_element_mp(R[0], ma, ca, R[1], mb, cb, C[n], q[n]) / (R[0].cn[ma, ca] * R[1].cn[mb, cb])
+        da0 = np.sqrt(np.abs(np.einsum("mcmcn->mcn", r2.point_charge_block(R[0], R[0], C, q)))) / R[0].cn[:, :, None]
+        db0 = np.sqrt(np.abs(np.einsum("mcmcn->mcn", r2.point_charge_block(R[1], R[1], C, q)))) / R[1].cn[:, :, None]
+        od = abs(want[at] - exact) / (da0[ma, ca, n] * db0[mb, cb, n])
+        v.info["oracle_vs_mp"] = od
+        v.classes.append("arbitrated-sample")
+        if od > 1e-9:
+            raise RuntimeError(f"float oracle R2 disagrees with its 40-digit instantiation by {od:.3e} (oracle defect, not a finding)")
     d, at = maxdev(got, ref, scale)
     v.info["rel_dev"] = d
     if not d <= TOL:
